@@ -37,7 +37,7 @@ var (
 	binA  = buildA()
 	binB  = buildB()
 	binC  = buildC()
-	bins  = [nMods][]byte{binA, binB, binC, buildM(), buildN(), nil /* H is a host module */, buildG(), buildT(), buildR()}
+	bins  = [nMods][]byte{binA, binB, binC, buildM(), buildN(), nil /* H is a host module */, buildG(), buildT(), buildR(shFull)}
 	bgctx = context.Background()
 )
 
@@ -240,37 +240,79 @@ func buildT() []byte {
 // burst (refBurst of them in a loop), init (table.init from the passive segment), mkg (global.set ref.func r) and
 // getref (the reference goes through the host). Every reference is a separate record of R's module engine; the
 // earlier ones must stay valid whatever is made later.
-func buildR() []byte {
+func buildR(shape int) []byte {
+	sd := shapeDefs[shape]
 	m := &wb.Module{}
 	m.Imports = append(m.Imports, wb.Import{Module: "T", Name: "tab", Kind: wb.KindTable, Table: wb.Table{Elem: wb.FuncRef, Lim: wb.Limits{Min: 3}}})
 	t0 := m.Type(i32, i32)
-	m.Tables = []wb.Table{{Elem: wb.FuncRef, Lim: wb.Limits{Min: 1, Max: 1, HasMax: true}}} // table index 1 (private; used by call_glob)
-	addPrivateMemory(m, mR)
-	r := m.AddFunc(i32, i32, nil, valueBody(mR, valR))
-	glob := m.AddGlobal(wb.FuncRef, true, wb.CRefFunc(r))
-	m.ExportFunc("r", r)
+	if sd.OwnTable {
+		m.Tables = []wb.Table{{Elem: wb.FuncRef, Lim: wb.Limits{Min: 1, Max: 1, HasMax: true}}} // table index 1 (private; used by call_glob)
+	}
+	var r uint32
+	if sd.Mem {
+		addPrivateMemory(m, mR)
+		r = m.AddFunc(i32, i32, nil, valueBody(mR, valR))
+	} else {
+		// no memory section: r is a constant function (mode != 0 traps as everywhere)
+		r = m.AddFunc(i32, i32, nil, (&wb.Asm{}).LocalGet(0).If(wb.Void).Unreachable().End().I32Const(valR).B)
+	}
+	var glob uint32
+	if sd.Global {
+		if sd.GlobalNull {
+			glob = m.AddGlobal(wb.FuncRef, true, wb.CRefNull(wb.FuncRef))
+		} else {
+			glob = m.AddGlobal(wb.FuncRef, true, wb.CRefFunc(r))
+		}
+	}
+	m.ExportFunc("r", r) // exported: ref.func r is valid in function bodies also when no element segment declares it
 	m.ExportFunc("mk", m.AddFunc(nil, nil, nil, (&wb.Asm{}).I32Const(2).RefFunc(r).TableSet(0).B))
 	// burst: for i := refBurst; i != 0; i-- { T.tab[2] = ref.func r }
 	burst := (&wb.Asm{}).I32Const(refBurst).LocalSet(0).Loop(wb.Void).
 		I32Const(2).RefFunc(r).TableSet(0).
 		LocalGet(0).I32Const(1).Op(0x6b).LocalTee(0).BrIf(0).End()
 	m.ExportFunc("burst", m.AddFunc(nil, nil, []byte{wb.I32}, burst.B))
-	m.ExportFunc("init", m.AddFunc(nil, nil, nil, (&wb.Asm{}).I32Const(1).I32Const(0).I32Const(2).TableInit(1, 0).B))
-	m.ExportFunc("mkg", m.AddFunc(nil, nil, nil, (&wb.Asm{}).RefFunc(r).GlobalSet(glob).B))
+	passiveIdx := uint32(0) // index of the passive segment in the element section
+	if sd.Active {
+		passiveIdx = 1
+	}
+	if sd.Passive {
+		m.ExportFunc("init", m.AddFunc(nil, nil, nil, (&wb.Asm{}).I32Const(1).I32Const(0).I32Const(2).TableInit(passiveIdx, 0).B))
+	}
+	if sd.Global {
+		m.ExportFunc("mkg", m.AddFunc(nil, nil, nil, (&wb.Asm{}).RefFunc(r).GlobalSet(glob).B))
+	}
 	m.ExportFunc("getref", m.AddFunc(nil, fref, nil, (&wb.Asm{}).RefFunc(r).B))
 	m.ExportFunc("call_t0", m.AddFunc(i32, i32, nil, (&wb.Asm{}).LocalGet(0).I32Const(0).CallIndirect(t0, 0).B))
-	m.ExportFunc("call_glob", m.AddFunc(i32, i32, nil, (&wb.Asm{}).I32Const(0).GlobalGet(glob).TableSet(1).LocalGet(0).I32Const(0).CallIndirect(t0, 1).B))
+	if sd.Global {
+		m.ExportFunc("call_glob", m.AddFunc(i32, i32, nil, (&wb.Asm{}).I32Const(0).GlobalGet(glob).TableSet(1).LocalGet(0).I32Const(0).CallIndirect(t0, 1).B))
+	}
 	dup := make([]uint32, refBurst)
 	for i := range dup {
 		dup[i] = r
 	}
-	m.Elems = []wb.Elem{
-		{Mode: 0, TableIdx: 0, Offset: wb.CI32(0), Funcs: []uint32{r, r}},
-		{Mode: 1, Funcs: dup},
+	if sd.Active {
+		m.Elems = append(m.Elems, wb.Elem{Mode: 0, TableIdx: 0, Offset: wb.CI32(0), Funcs: []uint32{r, r}})
+	}
+	if sd.Passive {
+		m.Elems = append(m.Elems, wb.Elem{Mode: 1, Funcs: dup})
+	}
+	if sd.ActiveOwn {
+		m.Elems = append(m.Elems, wb.Elem{Mode: 0, TableIdx: 1, Offset: wb.CI32(0), Funcs: []uint32{r}})
+	}
+	if sd.Decl {
+		m.Elems = append(m.Elems, wb.Elem{Mode: 2, Funcs: []uint32{r}})
 	}
 	nameExports(m)
 	return m.Encode()
 }
+
+// rBins: R in every module shape (rBins[shFull] == bins[mR]).
+var rBins = func() (b [nShapes][]byte) {
+	for sh := range b {
+		b[sh] = buildR(sh)
+	}
+	return
+}()
 
 // hostState is what H's three Go closures capture. Nothing else references it once the harness dropped H, so its
 // finalizer tells whether the closures were collected.
@@ -387,6 +429,8 @@ type world struct {
 	fill     [nFillers]wazero.CompiledModule   // filler compiled modules (world under test only)
 	hbuilder wazero.HostModuleBuilder          // H's builder (dropped with H)
 	hstate   *hostState                        // harness reference to the closures' state (dropped with H)
+	shape    int                               // module shape of R (graph TR); the persistent twin switches it per history
+	compR    [nShapes]wazero.CompiledModule    // twin only: one compiled module of R per shape, compiled on first use
 	hostVia  bool                              // instantiate H with builder.Instantiate instead of Compile + InstantiateModule
 	// set by the finalizer of hstate
 	hostCollected *atomic.Bool
@@ -410,8 +454,8 @@ func rtConfig(eng int) wazero.RuntimeConfig {
 // Code segments are mmap'd monotonically in a fresh process, so whichever direction the kernel uses, in both orders a
 // live module that is reachable through call_indirect from a non-importer (A or C) has the highest code address and
 // the fillers lie in the middle of wazevo's address-sorted module list.
-func newWorld(test bool, eng int, noCache bool, need [nMods]bool, order int, hostVia bool) *world {
-	w := &world{test: test, eng: eng, pending: -1, pendingH: -1, hostVia: hostVia && test}
+func newWorld(test bool, eng int, noCache bool, need [nMods]bool, order int, hostVia bool, shape int) *world {
+	w := &world{test: test, eng: eng, pending: -1, pendingH: -1, hostVia: hostVia && test, shape: shape}
 	cfg := rtConfig(eng)
 	if !noCache {
 		w.cache = wazero.NewCompilationCache()
@@ -427,7 +471,11 @@ func newWorld(test bool, eng int, noCache bool, need [nMods]bool, order int, hos
 			return
 		}
 		var err error
-		if w.comp[x], err = w.rt.CompileModule(bgctx, bins[x]); err != nil {
+		bin := bins[x]
+		if x == mR {
+			bin = rBins[shape]
+		}
+		if w.comp[x], err = w.rt.CompileModule(bgctx, bin); err != nil {
 			fw.Fatalf("compile %s: %v", modNames[x], err)
 		}
 	}
@@ -659,7 +707,19 @@ func (w *world) do(o op) (out string) {
 			w.inst[o.X] = m
 			return "ok"
 		}
-		m, err := w.rt.InstantiateModule(bgctx, w.comp[o.X], wazero.NewModuleConfig().WithName(modNames[o.X]))
+		cm := w.comp[o.X]
+		if o.X == mR && !w.test && w.shape != shFull {
+			// the twin world lives as long as the child process: R's other shapes are compiled on first use
+			if w.compR[w.shape] == nil {
+				c, err := w.rt.CompileModule(bgctx, rBins[w.shape])
+				if err != nil {
+					fw.Fatalf("twin: compile R shape %d: %v", w.shape, err)
+				}
+				w.compR[w.shape] = c
+			}
+			cm = w.compR[w.shape]
+		}
+		m, err := w.rt.InstantiateModule(bgctx, cm, wazero.NewModuleConfig().WithName(modNames[o.X]))
 		if err != nil {
 			return outcome(nil, err)
 		}
